@@ -1,5 +1,6 @@
 import XmpModel.Container
 import XmpModel.Lzw
+import XmpModel.ArcFrame
 import XmpModel.PowerPacker
 import XmpModel.ZipFrame
 import XmpModel.LhaFrame
@@ -105,7 +106,7 @@ partial def loop (h : IO.FS.Stream) : IO Unit := do
   | ["pipe", hexa, hexp] =>
     let a := parseHex hexa
     let p := parseHex hexp
-    match decrunch ((((constEnv p).withLha (fun _ _ _ _ => some p)).withArcfs (fun _ _ _ _ => some p)).withLzx crc32From (fun _ _ => some p) |>.withMmcmp (fun _ _ _ _ _ _ => some p)) a with
+    match decrunch ((((constEnv p).withLha (fun _ _ _ _ => some p)).withArcfs (fun _ _ _ _ => some p)).withLzx crc32From (fun _ _ => some p) |>.withMmcmp mmDec) a with
     | none => IO.println s!"p {(dispatch a).getD "none"} fail"
     | some s => IO.println s!"p {(dispatch a).getD "none"} ok {s.length} {hex64 (fnv s)} {toHex (Md5.md5sumLoop Gen.Depackers.md5ReadChunk s)}"
   | ["lzw", hex] => IO.println s!"D {showOut (Lzw.unlzw (parseHex hex))}"
@@ -121,6 +122,23 @@ partial def loop (h : IO.FS.Stream) : IO Unit := do
                                    short := sh == "1" } : PowerPacker.PPItem)
       | _ => none
     IO.println s!"E {toHex (PowerPacker.ppRender (parseHex eff) items)} {toHex (PowerPacker.ppExpand items)}"
+  | "arcitems" :: spark :: its =>
+    -- flat item list written by the Lean writer arcItemsBytes (+ arcRealize for the directory size/CRC fields):
+    -- f:name:method:data  |  o:name  (directory header: Spark 0x82 + file type DDC, else ARC 6 type 30)  |  c:marker
+    let sp := spark == "1"
+    let items := its.filterMap fun t => match t.splitOn ":" with
+      | ["f", n, m, d] =>
+        let data := parseHex d
+        let meth := m.toNat?.getD 2
+        some (ArcItem.file { name := parseHex n, method := meth, data := data,
+                             toks := if meth % 128 = 3 then rle90Enc data else [] })
+      | ["o", n] =>
+        some (ArcItem.dopen (if sp then { name := parseHex n, method := 130, data := [],
+                                           attrs := [0x42, 0xdc, 0xfd, 0xff, 0, 0, 0, 0, 3, 0, 0, 0] }
+                             else { name := parseHex n, method := 30, data := [] }) 0 0)
+      | ["c", k] => some (ArcItem.dclose (UInt8.ofNat (k.toNat?.getD 0)))
+      | _ => none
+    IO.println s!"E {toHex (arcWrapItems crc16 (arcRealize crc16 items) sp)}"
   | "arcenc" :: spark :: ms =>
     -- members name:method:data (hex); method 3 members are packed by the Lean encoder rle90Enc
     let mem := ms.filterMap fun t => match t.splitOn ":" with
@@ -148,13 +166,19 @@ partial def loop (h : IO.FS.Stream) : IO Unit := do
   | ["mmcmp", hexa, hexp] =>
     let p := parseHex hexp
     let a := parseHex hexa
-    let r1 := decrunchMmcmp (fun _ _ _ _ _ _ => some p) a
-    let r2 := decrunchMmcmp (fun _ _ _ _ _ _ => none) a
-    IO.println (if r1 == r2 then s!"D {showOut r1}" else "D dec")
+    let _ := p
+    IO.println s!"D {showOut (decrunchMmcmp mmDec a)}"
   | "mmcmpenc" :: bs =>
     -- each argument is one block: its sub-block contents (hex) joined by ':'
     let blocks := bs.map fun b => (b.splitOn ":").map parseHex
     IO.println s!"E {toHex (mmcmpWrap blocks)}"
+  | "mmcmpenck" :: bs =>
+    -- each argument is one block: kind (s stored, p packed, d packed+DELTA) then its sub-block contents (hex), joined by ':'
+    let blocks : List (Option Bool × List Bytes) := bs.map fun b =>
+      match b.splitOn ":" with
+      | k :: subs => ((if k == "s" then none else some (k == "d")), subs.map parseHex)
+      | [] => (none, [])
+    IO.println s!"E {toHex (mmcmpWrapK blocks)}"
   | ["lzx", hexa, hexp] =>
     let p := parseHex hexp
     let a := parseHex hexa
